@@ -1,6 +1,7 @@
 import WhVerif.Util.Proto
 import WhVerif.Model.C10
 import WhVerif.Model.C10Regions
+import WhVerif.Model.C10Run
 namespace WhVerif.Driver.C10
 open Lean WhVerif.Proto WhVerif.C10
 
@@ -114,7 +115,108 @@ def regionsAnswer (user : List (Nat × Region)) (contigs : List (List (Int × In
     ("written", ofList ofPos (runRegionsSkip sel)),
     ("once", ofList ofPos (runRegions sel))]
 
+
+/-! ### `run_haplotag` end to end (Model/C10Run.lean) -/
+
+def call? (j : Json) : Option Call := do
+  match ← asArr? j with
+  | [p, h, ph] =>
+    let phase ← (if ph.isNull then some none else do
+      match ← asArr? ph with
+      | [b, al] => some (some (← optInt? b, ← natList? al))
+      | _ => none)
+    some ⟨← asNat? p, ← asBool? h, phase⟩
+  | _ => none
+
+/-- the dict `vpos_to_phase_info` with every key once (its final value), ordered by position -/
+def resolvedInfo (info : PhaseInfo) : List (Nat × (Int × List Nat)) :=
+  let keys := (info.map (·.1)).eraseDups
+  let sorted := keys.foldr (fun k acc => (acc.filter (· < k)) ++ [k] ++ (acc.filter (fun x => !(x < k)))) []
+  sorted.filterMap fun k => (info.lookup k).map fun v => (k, v)
+
+def runErrName : RunErr → String
+  | .noVcfSamples => "noVcfSamples" | .needSampleOption => "needSampleOption" | .sampleNotInVcf => "sampleNotInVcf"
+  | .noSharedSamples => "noSharedSamples" | .contigNotInVcf _ => "contigNotInVcf" | .prepare e => errName e
+
+def strList? (j : Json) : Option (List String) := do (← asArr? j).mapM asStr?
+
+def alnFull? (j : Json) : Option (String × Bool × Bool × Bool × Int × Int × Option String) := do
+  match ← asArr? j with
+  | [n, u, s, sp, st, en, bx] =>
+    some (← asStr? n, ← asBool? u, ← asBool? s, ← asBool? sp, ← asInt? st, ← asInt? en, ← optStr? bx)
+  | _ => none
+
+def contigIn? (i : Nat) (j : Json) : Option (ContigIn (Nat × Nat)) := do
+  let alns ← (← getList? j "alns").mapM alnFull?
+  let inVcf ← getBool? j "inVcf"
+  let samples ← (← getList? j "samples").mapM sample?
+  some ⟨alns.zipIdx.map fun (a, k) => ⟨(i, k), a.1, a.2.1, a.2.2.1, a.2.2.2.1, a.2.2.2.2.1, a.2.2.2.2.2.1, a.2.2.2.2.2.2, {}⟩,
+    inVcf, samples⟩
+
+def mapIdxM? {β γ} (f : Nat → β → Option γ) : Nat → List β → Option (List γ)
+  | _, [] => some []
+  | i, x :: xs => do
+    let y ← f i x
+    let ys ← mapIdxM? f (i + 1) xs
+    some (y :: ys)
+
+def optNatJ : Option Nat → Json | some n => ofNat n | none => Json.null
+def optIntJ : Option Int → Json | some n => ofInt n | none => Json.null
+
+/-- per contig: the names of the reads in clouds of several reads whose phase sets tie (the reported set then depends on
+the iteration order of a Python `set` of `Read` objects) -/
+def ambiguousNames (cfg : Config) (contigs : List (ContigIn (Nat × Nat))) : List (List String) :=
+  contigs.map fun c => c.samples.flatMap fun s =>
+    (clouds cfg.ploidy s.1 cfg.cutoff cfg.ignoreLinked s.2).flatMap fun cl =>
+      if cl.1.length > 1 && cl.2.length > 1 then cl.1 else []
+
+def runAnswer (cfg : Config) (contigs : List (ContigIn (Nat × Nat))) : Json :=
+  match haplotagPlaced cfg contigs with
+  | .error e => Json.mkObj [("error", Json.str (runErrName e)),
+      ("contig", match e with | .contigNotInVcf i => ofNat i | _ => Json.null)]
+  | .ok w => Json.mkObj [
+      ("error", Json.null),
+      ("written", ofList (fun (t : Written (Nat × Nat)) =>
+        Json.arr #[ofNat t.2.1.rest.1, ofNat t.2.1.rest.2, optNatJ t.2.1.tags.hp, optNatJ t.2.1.tags.pc, optIntJ t.2.1.tags.ps]) w),
+      ("list", ofList (fun (l : ListLine) => Json.arr #[Json.str l.name, optNatJ l.hap, optIntJ l.ps, ofNat l.contig]) (listLines w)),
+      ("tail", Json.bool cfg.regions.isNone),
+      ("ambiguous", ofList (ofList Json.str) (ambiguousNames cfg contigs))]
+
 def handle (op : String) (j : Json) : Option Json :=
+  if op == "c10.varinfo" then
+    match (getList? j "calls").bind (·.mapM call?) with
+    | some calls =>
+      let r := variantInfo calls
+      some (Json.mkObj [
+        ("info", ofList (fun (e : Nat × (Int × List Nat)) => Json.arr #[ofNat e.1, ofInt e.2.1, ofNatList e.2.2]) (resolvedInfo r.1)),
+        ("variants", ofNatList r.2)])
+    | none => some badInput
+  else
+  if op == "c10.samples" then
+    match (getObj? j "vcf").bind strList?, getBool? j "ignoreRG", (getObj? j "bam").bind strList?, getObj? j "given" with
+    | some vcf, some irg, some bam, some g =>
+      match (if g.isNull then some none else (strList? g).map some) with
+      | none => some badInput
+      | some given =>
+        let use := samplesToUse vcf given irg
+        let shared := match use with
+          | .error e => Except.error e
+          | .ok u => sharedSamples bam irg u
+        let show_ (r : Except RunErr (List String)) : Json := match r with
+          | .ok l => ofList Json.str l
+          | .error e => Json.mkObj [("error", Json.str (runErrName e))]
+        some (Json.mkObj [("use", show_ use), ("shared", show_ shared)])
+    | _, _, _, _ => some badInput
+  else
+  if op == "c10.run" then
+    match getNat? j "ploidy", getInt? j "cutoff", getBool? j "ignoreLinked", getBool? j "tagSupp", getBool? j "skipMissing",
+      getBool? j "writeMissing", getObj? j "regions", (getList? j "contigs").bind (mapIdxM? contigIn? 0) with
+    | some pl, some cutoff, some il, some ts, some sk, some wm, some rg, some contigs =>
+      match (if rg.isNull then some none else ((asArr? rg).bind (·.mapM userRegion?)).map some) with
+      | none => some badInput
+      | some regions => some (runAnswer ⟨pl, cutoff, il, ts, sk, regions, wm⟩ contigs)
+    | _, _, _, _, _, _, _, _ => some badInput
+  else
   if op == "c10.regions" then
     match (getList? j "user").bind (·.mapM userRegion?),
       (getList? j "contigs").bind (·.mapM fun c => (asArr? c).bind (·.mapM span?)) with
